@@ -25,6 +25,9 @@ NOT_DECIDED = ("the relative order of several after_tag calls (not specified); b
 def t_skip(chk, ix):
     from .. import rules_container
     rules_container.check_outline_skip(chk, ix)
+    # the feature's own hooks run exactly when something inside the feature runs - also when that is a scenario of a rule
+    from .. import rules_select
+    rules_select.check_container_children_concrete(chk, ix)
 
 
 def run(chk, ix, tier):
